@@ -144,14 +144,19 @@ class TraitSet(set):
             The updated set.
         """
 
-        old_set = self.copy()
-        retval = super().__iand__(value)
-        removed = old_set.difference(self)
+        if not isinstance(value, (set, frozenset)):
+            return super().__iand__(value)
+
+        # The built-in intersection may keep the items of ``value``, which are
+        # equal to, but not necessarily the same objects as, the validated
+        # members. Remove the other members instead.
+        removed = self.difference(self.intersection(value))
 
         if len(removed) > 0:
+            super().difference_update(removed)
             self.notify(removed, set())
 
-        return retval
+        return self
 
     def __ior__(self, value):
         """ Return self |= value.
@@ -312,11 +317,13 @@ class TraitSet(set):
             The other iterables.
         """
 
-        old_set = self.copy()
-        super().intersection_update(*args)
-        removed = old_set.difference(self)
+        # The built-in intersection may keep the items of the arguments, which
+        # are equal to, but not necessarily the same objects as, the validated
+        # members. Remove the other members instead.
+        removed = self.difference(self.intersection(*args))
 
         if len(removed) > 0:
+            super().difference_update(removed)
             self.notify(removed, set())
 
     def pop(self):
